@@ -28,7 +28,7 @@ var plainNames = []string{"a", "b", "c", "A", "Foo", "foo", "bar", "x.txt", "mai
 var ignoreNames = []string{".git", ".terraform", "modules", "terraform.d", ".terraform", ".git"}
 var awkwardNames = []string{
 	"with space", "-dash", ".hidden", "a+b", "(paren)", "[br]", "{cur}", "pipe|x", "^car", "$dol", "#hash", "!bang", "star*", "q?",
-	"ünï", "日本語", "tab\tx", "semi;colon", "a'b", "quote\"q", "..dots", "dots..", "...",
+	"ünï", "日本語", "tab\tx", "line\nbreak", "back\\slash", "semi;colon", "a'b", "quote\"q", "..dots", "dots..", "...",
 	strings.Repeat("L", 120), strings.Repeat("M", 255), strings.Repeat("é", 100),
 }
 
